@@ -433,20 +433,10 @@ func runC15(c *Ctx) {
 				return
 			}
 			o.Site(in.Pos(), "store in %s: %s", fname(f), s.Val.String())
-			if call, ok := s.Val.(*ssa.Call); ok && callName(call) == "math.Min" {
-				capped := false
-				for _, a := range call.Call.Args {
-					if cv, ok := a.(*ssa.Convert); ok {
-						if fr, ok := asFieldLoad(cv.X); ok && fr.SName == T {
-							capped = true
-							burst = fr.Field
-						}
-					}
-				}
-				if capped {
-					refill = f
-					return
-				}
+			if bf, ok := cappedBy(s.Val, T); ok {
+				burst = bf
+				refill = f
+				return
 			}
 			if b, ok := s.Val.(*ssa.BinOp); ok && b.Op == token.SUB && isFieldLoad(b.X, T, tokens) {
 				return // decrease, checked in R2
@@ -462,8 +452,8 @@ func runC15(c *Ctx) {
 			if !ok || !isFieldStore(s, T, tokens) {
 				return false
 			}
-			call, ok := s.Val.(*ssa.Call)
-			return ok && callName(call) == "math.Min"
+			_, ok = cappedBy(s.Val, T)
+			return ok
 		}
 		if ok, bad := mustPassU(entryPos(refill), isReturn, isCap); !ok {
 			o.Fail(bad.Pos(), "%s can return without clipping the token count to the current burst size (a burst lowered at run time is never enforced)", fname(refill))
@@ -507,15 +497,36 @@ func runC15(c *Ctx) {
 	if drain != nil {
 		fw := findU(drain, func(in ssa.Instruction) bool { return isNICForward(in, T) })[0].(*ssa.Call)
 		arg := fw.Call.Args[0]
-		pk, _ := arg.(*ssa.Call)
-		if pk == nil || !isQueueCall(pk, "peek") {
+		// the forwarded value: every phi leaf must be a peek() of the filter's queue
+		var pks []*ssa.Call
+		okHead := true
+		for _, lf := range phiLeaves(arg) {
+			pkc, ok := lf.(*ssa.Call)
+			if !ok || !isQueueCall(pkc, "peek") || !strings.HasPrefix(queueOf(pkc), T+".") {
+				okHead = false
+				continue
+			}
+			pks = append(pks, pkc)
+		}
+		if !okHead || len(pks) == 0 {
 			o.Fail(fw.Pos(), "the forwarded chunk is not the head returned by peek()")
 		} else {
-			// size value: float64(len(next.UserData()))
+			isHead := func(v ssa.Value) bool {
+				if v == arg {
+					return true
+				}
+				for _, pkc := range pks {
+					if v == ssa.Value(pkc) {
+						return true
+					}
+				}
+				return false
+			}
+			// size value: float64(len(head.UserData()))
 			isSize := func(v ssa.Value) bool {
 				return derivesFrom(v, func(x ssa.Value) bool {
 					call, ok := x.(*ssa.Call)
-					return ok && call.Call.IsInvoke() && call.Call.Method.Name() == "UserData" && call.Call.Value == ssa.Value(pk)
+					return ok && call.Call.IsInvoke() && call.Call.Method.Name() == "UserData" && isHead(call.Call.Value)
 				}, true)
 			}
 			enough := hasFact(fw, func(ft fact) bool {
@@ -526,9 +537,8 @@ func runC15(c *Ctx) {
 			if !enough {
 				o.Fail(fw.Pos(), "the forward is not guarded by tokens >= size of the head")
 			}
-			// per iteration: from peek to next peek / return
-			isPeek := func(in ssa.Instruction) bool { return isQueueCall(in, "peek") && queueOf(in) == queueOf(pk) }
-			isPop := func(in ssa.Instruction) bool { return isQueueCall(in, "pop") && queueOf(in) == queueOf(pk) }
+			isPeek := func(in ssa.Instruction) bool { return isQueueCall(in, "peek") && queueOf(in) == queueOf(pks[0]) }
+			isPop := func(in ssa.Instruction) bool { return isQueueCall(in, "pop") && queueOf(in) == queueOf(pks[0]) }
 			isDec := func(in ssa.Instruction) bool {
 				s, ok := in.(*ssa.Store)
 				if !ok || !isFieldStore(s, T, tokens) {
@@ -542,13 +552,17 @@ func runC15(c *Ctx) {
 				name string
 				is   func(ssa.Instruction) bool
 			}{{"pop", isPop}, {"token decrement by the forwarded size", isDec}} {
-				// on every path through the forward within one iteration: exactly one event
-				mx, inf := maxEventsU(posAfter(pk), end, func(in ssa.Instruction) int { return b2i(ev.is(in)) })
-				if mx > 1 || inf {
-					o.Fail(fw.Pos(), "more than one %s per loop iteration", ev.name)
+				for _, pk := range pks {
+					mx, inf := maxEventsU(posAfter(pk), end, func(in ssa.Instruction) int { return b2i(ev.is(in)) })
+					if mx > 1 || inf {
+						o.Fail(fw.Pos(), "more than one %s per loop iteration", ev.name)
+					}
 				}
-				// forward => event on the same iteration: from peek, reaching the end of the iteration having forwarded requires the event
-				before, _ := mustPassU(posAfter(pk), func(in ssa.Instruction) bool { return in == ssa.Instruction(fw) }, ev.is)
+				before := true
+				for _, pk := range pks {
+					bf, _ := mustPassU(posAfter(pk), func(in ssa.Instruction) bool { return in == ssa.Instruction(fw) }, ev.is)
+					before = before && bf
+				}
 				after, _ := mustPassU(posAfter(fw), end, ev.is)
 				if !before && !after {
 					o.Fail(fw.Pos(), "a forwarded datagram is not paired with a %s on every path of the iteration", ev.name)
@@ -557,14 +571,22 @@ func runC15(c *Ctx) {
 			// pop => forward (nothing is popped and discarded)
 			for _, pp := range findU(drain, isPop) {
 				o.Site(pp.Pos(), "pop")
-				bef, _ := mustPassU(posAfter(pk), func(in ssa.Instruction) bool { return in == pp }, func(in ssa.Instruction) bool { return in == ssa.Instruction(fw) })
+				bef := true
+				for _, pk := range pks {
+					if canReach(posAfter(pk), pp, end) {
+						b1, _ := mustPassU(posAfter(pk), func(in ssa.Instruction) bool { return in == pp }, func(in ssa.Instruction) bool { return in == ssa.Instruction(fw) })
+						bef = bef && b1
+					}
+				}
 				aft, _ := mustPassU(posAfter(pp), end, func(in ssa.Instruction) bool { return in == ssa.Instruction(fw) })
 				if !bef && !aft {
 					o.Fail(pp.Pos(), "the head is popped on a path that does not forward it: a datagram is discarded although the queue is not full")
 				}
 			}
-			if mx, inf := maxEventsU(posAfter(pk), end, func(in ssa.Instruction) int { return b2i(in == ssa.Instruction(fw)) }); mx > 1 || inf {
-				o.Fail(fw.Pos(), "the head can be forwarded twice in one iteration")
+			for _, pk := range pks {
+				if mx, inf := maxEventsU(posAfter(pk), end, func(in ssa.Instruction) int { return b2i(in == ssa.Instruction(fw)) }); mx > 1 || inf {
+					o.Fail(fw.Pos(), "the head can be forwarded twice in one iteration")
+				}
 			}
 		}
 	}
@@ -669,22 +691,10 @@ func runC14(c *Ctx) {
 	fwd := findU(run, func(in ssa.Instruction) bool { return isNICForward(in, T) })
 	pops := findU(run, func(in ssa.Instruction) bool { return isQueueCall(in, "pop") })
 	dueFact := func(ft fact) bool {
-		return boolFact(ft, func(v ssa.Value) bool {
-			call, ok := v.(*ssa.Call)
-			if !ok || callName(call) != "(time.Time).Before" {
-				return false
-			}
-			// receiver: the deadline field of a timedChunk
-			fr, ok := asFieldLoad(call.Call.Args[0])
-			return ok && fr.SName == "vnet.timedChunk"
-		}, true) || boolFact(ft, func(v ssa.Value) bool {
-			call, ok := v.(*ssa.Call)
-			if !ok || callName(call) != "(time.Time).After" {
-				return false
-			}
-			fr, ok := asFieldLoad(call.Call.Args[1])
-			return ok && fr.SName == "vnet.timedChunk"
-		}, true)
+		isDl := func(v ssa.Value) bool { fr, ok := asFieldLoad(v); return ok && fr.SName == "vnet.timedChunk" }
+		any := func(v ssa.Value) bool { return !isDl(v) }
+		// now is after the deadline
+		return timeOrderFact(ft, any, isDl) == 1
 	}
 	for _, in := range append(append([]ssa.Instruction{}, fwd...), pops...) {
 		o.Site(in.Pos(), "%s", in.String())
@@ -888,14 +898,14 @@ func runC14(c *Ctx) {
 		o.Fail(pc.Pos(), "cut-off time (now - minDelay) not found in processChunks")
 	}
 	notDue := func(ft fact) bool {
-		return boolFact(ft, func(v ssa.Value) bool {
-			call, ok := v.(*ssa.Call)
-			if !ok || callName(call) != "(time.Time).After" || cut == nil {
-				return false
-			}
-			ts, ok := call.Call.Args[0].(*ssa.Call)
-			return ok && ts.Call.IsInvoke() && ts.Call.Method.Name() == "getTimestamp" && call.Call.Args[1] == ssa.Value(cut)
-		}, false)
+		if cut == nil {
+			return false
+		}
+		isTS := func(v ssa.Value) bool {
+			ts, ok := v.(*ssa.Call)
+			return ok && ts.Call.IsInvoke() && ts.Call.Method.Name() == "getTimestamp"
+		}
+		return timeOrderFact(ft, isTS, func(v ssa.Value) bool { return v == ssa.Value(cut) }) == -1
 	}
 	for _, in := range findU(pc, func(in ssa.Instruction) bool { return isQueueCall(in, "pop") }) {
 		o.Site(in.Pos(), "pop")
@@ -934,4 +944,54 @@ func runC14(c *Ctx) {
 		}
 	}
 	fifoShape(c, "R7")
+}
+
+// cappedBy: the value is bounded above by float64(<int field of T>): either
+// math.Min(float64(t.f), x), or a hand-written clamp - a phi all of whose edges are that
+// converted field or a value found <= it on the edge.
+func cappedBy(v ssa.Value, T string) (string, bool) {
+	isBurst := func(x ssa.Value) (string, bool) {
+		if cv, ok := x.(*ssa.Convert); ok {
+			if fr, ok := asFieldLoad(cv.X); ok && fr.SName == T {
+				return fr.Field, true
+			}
+		}
+		return "", false
+	}
+	if call, ok := v.(*ssa.Call); ok && callName(call) == "math.Min" {
+		for _, a := range call.Call.Args {
+			if f, ok := isBurst(a); ok {
+				return f, true
+			}
+		}
+		return "", false
+	}
+	ph, ok := v.(*ssa.Phi)
+	if !ok {
+		return "", false
+	}
+	field := ""
+	for i, e := range ph.Edges {
+		if f, ok := isBurst(e); ok {
+			field = f
+			continue
+		}
+		// e <= burst must hold on this edge
+		pred := ph.Block().Preds[i]
+		okEdge := false
+		for _, ft := range append(guardsOfBlock(pred), lastBranchFact(pred, ph.Block())...) {
+			cm, ok := normCmp(ft.Cond, ft.Val)
+			if !ok || (cm.Op != token.LEQ && cm.Op != token.LSS) || cm.X != e {
+				continue
+			}
+			if f, ok := isBurst(cm.Y); ok {
+				field = f
+				okEdge = true
+			}
+		}
+		if !okEdge {
+			return "", false
+		}
+	}
+	return field, field != ""
 }
